@@ -528,6 +528,18 @@ func (t *Task) load(
 	if len(first.Header.Parent) == 32 && !bytes.Equal(localHash, first.Header.Parent) {
 		return nil, ErrReorg
 	}
+	// Partitions are fetched independently (and may come from the cache):
+	// a reorg between two fetches yields blocks of different branches.
+	for i := 1; i < len(blocks); i++ {
+		prev, curr := &blocks[i-1], &blocks[i]
+		if len(curr.Header.Parent) != 32 || len(prev.Header.Hash) != 32 {
+			continue
+		}
+		if !bytes.Equal(curr.Header.Parent, prev.Header.Hash) {
+			const tag = "loaded blocks are not linked: %d is not the parent of %d"
+			return nil, fmt.Errorf(tag, prev.Num(), curr.Num())
+		}
+	}
 	slog.DebugContext(ctx, "load",
 		"n", last.Num(),
 		"h", fmt.Sprintf("%.4x", last.Hash()),
